@@ -34,7 +34,7 @@ ASSUMPTIONS = [
     "axes of length < 2 have no direction: either reading accepted",
 ]
 MANDATORY = ["1d:inc", "1d:dec", "1d:neg-step", "1d:bound-between", "1d:bound-outside", "1d:empty-selection",
-             "strict:shuffled", "strict:str", "strict:absent-bound", "pos", "nd:slice-not-first-dim", "nd:with-list", "nd:with-scalar"]
+             "strict:shuffled", "strict:str", "strict:absent-bound", "pos", "nd:slice-not-first-dim", "nd:with-list", "nd:with-scalar", "nd:ellipsis", "nd:take-axis-negative"]
 
 STEPS = [None, 1, 2, 3, -1, -2]
 BASE = [0, 2, 4, 6, 8]
@@ -141,12 +141,15 @@ def nd_case(draw):
     nd = len(spec["dims"])
     which = draw(st.integers(0, nd - 1))
     position = draw(st.sampled_from([False, False, True]))
+    alone = draw(st.integers(0, 3)) == 0        # the slice is the only index: also spelt take(slice, axis=name | position | negative position)
     descs = []
     for i, labs in enumerate(spec["labels"]):
         kind = core.label_kind(labs) if labs else "i"
         d = None
         if i != which:
-            if position:
+            if alone:
+                d = {"k": "full"}
+            elif position:
                 d = {"k": "full"}
                 n = len(labs)
                 if n and draw(st.booleans()):
@@ -161,8 +164,10 @@ def nd_case(draw):
             else:
                 d = {"k": "slice", "v": [draw(_bound(labs, kind)), draw(_bound(labs, kind)), step]}
         descs.append(d)
-    spelling = draw(st.sampled_from(["getitem", "take", "dict"] if not position else ["ix", "iloc", "take-position"]))
-    return {"mode": "nd", "spec": spec, "index": descs, "spelling": spelling}
+    spelling = draw(st.sampled_from(["getitem", "take", "dict", "ellipsis"] if not position else ["ix", "iloc", "take-position", "ix-ellipsis"]))
+    if alone:
+        spelling = draw(st.sampled_from(["take-axis-name", "take-axis-pos", "take-axis-neg"]))
+    return {"mode": "nd", "spec": spec, "index": descs, "spelling": spelling, "position": position}
 
 
 def strategy(tier):
@@ -299,6 +304,24 @@ def run_nd(case):
         f = lambda: a.iloc[idx]
     elif spelling == "take-position":
         f = lambda: a.take(idx, indexing="position")
+    elif spelling in ("ellipsis", "ix-ellipsis"):
+        # the longest run of full slices (possibly empty, then at the end) is written as an Ellipsis
+        best, cur = (len(descs), 0), None
+        for i, de in enumerate(list(descs) + [{"k": "end"}]):
+            if de["k"] == "full":
+                cur = (cur[0], cur[1] + 1) if cur else (i, 1)
+            else:
+                if cur and cur[1] > best[1]:
+                    best = cur
+                cur = None
+        key = idx[:best[0]] + (Ellipsis,) + idx[best[0] + best[1]:]
+        f = (lambda: a[key]) if spelling == "ellipsis" else (lambda: a.ix[key])
+    elif spelling.startswith("take-axis"):
+        w = [i for i, de in enumerate(descs) if de["k"] != "full"]
+        w = w[0] if w else 0
+        axarg = {"take-axis-name": dims[w], "take-axis-pos": w, "take-axis-neg": w - len(dims)}[spelling]
+        kwp = {"indexing": "position"} if case.get("position") else {}
+        f = lambda: a.take(idx[w], axis=axarg, **kwp)
     what = "%s %s" % (spelling, core.jsonable(descs))
     sig = {"mode": "nd"}
     try:
@@ -324,6 +347,10 @@ def run_nd(case):
         cl.append("nd:with-mask")
     if any(d["k"] == "pslice" for d in descs):
         cl.append("nd:position")
+    if "ellipsis" in spelling:
+        cl.append("nd:ellipsis")
+    if spelling == "take-axis-neg":
+        cl.append("nd:take-axis-negative")
     if exc is not None:
         cl.append("nd:expected-IndexError")
     for i in sl_dims:
